@@ -10,3 +10,19 @@ claim("C14", "Coq proof (weighted-tail validity, Vandermonde/binomial totals via
 claim("C18", "Coq proof (pair-counting identity, range, unanimity, invariances) + exact-Q correspondence on all small binary matrices",
       "Theorems for all binary items and all R: y(y-1)+(R-y)(R-y-1) is twice the number of agreeing unordered rater pairs; the summed count lies in [0, Ns R(R-1)] with equality iff every item is unanimous; invariance under item order, rater order and 0/1 relabelling; simulate_ts_dist's reference/geq/p-value logic as a definitional theorem of the model. Model compared with compute_ts on all binary matrices R<=4, Ns<=3 (thorough Ns<=4), with simulate_ts_dist under real seeds (simulated matrices recorded), and with simulate_npc_dist's obs_npc.",
       COMMON_NOTE + "The column-sum/transpose identity is checked per case by computation, not proved; simulate_npc_dist's global p-value is covered by the NPC properties, not here.", "DESIGN.md 4/C18")
+
+claim("C11", "Coq model with argsort as oracle input + sort-free textbook spec, both compared with the implementation by vm_compute; theorems in Properties/C11.v",
+      "adjust_p model (rank_min/rank_max multipliers, running max/min along any sorting permutation) and the sort-free textbook forms are both evaluated in Coq against the implementation on all grid vectors n<=4 x 3 methods and random tied vectors n<=40; the oracle order is checked to be a sorting permutation in Coq. Theorems: see Properties/C11.v (growing).",
+      COMMON_NOTE + "np.argsort tie order is not assumed (oracle input).", "DESIGN.md 4/C11")
+claim("C15", "Coq model of the sequential loop + exact-Q correspondence on all 0/1 sequences up to length 8/12 with recorded prefixes; theorems in Properties/C15.v",
+      "The model follows sprt's loop (index, prefix, thresholds, decision) over Q; compared exactly (prefixes examined, decision) and at 1e-9 (ratio) with the implementation on every 0/1 sequence up to length 8 (thorough 12) x 7 parameter sets and threshold-exact table functions. Theorems: see Properties/C15.v (growing).",
+      COMMON_NOTE + "float ratios vs exact Q: near-threshold cases skipped and counted.", "DESIGN.md 4/C15")
+claim("C07", "Coq model of npc/sim_npc over Q + correspondence (rotation of every row into the observed position); theorems in Properties/C07.v",
+      "npc and sim_npc (table form) modelled exactly; implementation compared on matrices with ties, all combiners, plus1, scripted Randomizer; the property predicate (observed row counts itself, exact rank p-value, range) is evaluated on the implementation for every case. Theorems: see Properties/C07.v (growing).",
+      COMMON_NOTE + "np.log/norm.ppf monotone; Liptak quantiles enter as a table of SciPy values; exact-tie cases between different vectors skipped.", "DESIGN.md 4/C07")
+claim("C08", "Coq model of npc + correspondence on related-input pairs; relations asserted on the implementation; theorems in Properties/C08.v",
+      "Monotonicity, relabelling and rank-invariance relations are asserted directly on implementation outputs for generated related pairs (incl. dtype crossings), both members compared with the model; combiner values vs documented formulas; shape rejections proved for the model.",
+      COMMON_NOTE + "same as C07.", "DESIGN.md 4/C08")
+claim("C09", "Coq model of fwer_minp (argsort oracle, nested npc, running max, scatter back) + correspondence on all orderings; theorems in Properties/C09.v",
+      "fwer_minp model compared with the implementation on all orderings of 3 (thorough 3 and 4) distinct p-values x matrices x combiners and random tied vectors; step-down values recomputed independently in Fractions and required at the supplied positions; relabelling relation asserted on the implementation.",
+      COMMON_NOTE + "argsort tie order is an oracle input.", "DESIGN.md 4/C09")
